@@ -233,3 +233,139 @@ def run_segment_units(prog, tier, repo):
                     res.ok(key, b.loc(st[3]), f'{fields[fi]} is not derived from a character count')
     res.floor('data-segment position operands', n, 2)
     return [res]
+
+
+# ---------------------------------------------------------------------------------------------------------------------
+# STR-PREDICATE-SIBLINGS (C04, C01): both back ends must compare strings by content. Each decides "is this operand a string"
+# with its own predicate over the low-level expression: the TypeScript printer with a method of the expression type, the
+# WebAssembly lowering with a local helper. The two are sibling implementations of one question and must look at the same
+# things: the string-constant variant and the declared type of a variable. A predicate that ignores variables makes the
+# wasm back end compare two string variables by reference while TypeScript compares them by content.
+
+def run_str_predicates(prog, tier, repo):
+    from ..core import field_reads
+    from ..facts import strip_refs
+    from ..tables import enum_switches
+    res = RuleResult('STR-PREDICATE-SIBLINGS', 'C04: the "operand is a string" predicates of the TypeScript printer and of the '
+                     'WebAssembly lowering inspect the same parts of an expression (string constants and the type of variables)')
+    expr = [a for a in prog.adts.values() if a.name == 'samlang_ast::lir::Expression']
+    if len(expr) != 1:
+        res.cannot_decide('lir::Expression')
+        return [res]
+    expr = expr[0]
+    sname = [i for i, v in enumerate(expr.variants) if v.name == 'StringName']
+    var = [i for i, v in enumerate(expr.variants) if v.name == 'Variable']
+    if not sname or not var:
+        res.cannot_decide('the string-constant and variable variants of lir::Expression')
+        return [res]
+
+    def preds(crate_pred):
+        out = []
+        for b in prog.bodies.values():
+            if b.kind == 'closure' or b.nargs != 1 or b.locals[0].s != 'bool' or not crate_pred(b):
+                continue
+            t = strip_refs(b.locals[1])
+            if not (t.k == 'adt' and t.id == expr.id):
+                continue
+            tests_sname = any(sname[0] in tb.arms and tb.arms[sname[0]] != tb.otherwise for tb in enum_switches(prog, b, expr.id))
+            if not tests_sname:
+                continue
+            # ... and answers "yes" for a string constant (evaluated on the MIR with a StringName argument)
+            from ..enummap import evaluate, enum_val, Abort, UNKNOWN
+
+            class _P:
+                local = 0
+                proj = ()
+            try:
+                v = evaluate(prog, b, [('ref', {0: enum_val(expr.id, sname[0], [UNKNOWN])}, _P())])
+            except Abort:
+                v = UNKNOWN
+            if v == ('int', 1):
+                out.append(b)
+        return out
+    ts = preds(lambda b: b.crate == 'samlang_ast' and '::lir::' in b.name and not b.name.endswith('is_string_name'))
+    wa = preds(lambda b: b.crate == 'samlang_compiler' and '::wasm_lowering::' in b.name + '::')
+    # the TS-side predicate is the one that also looks into the variable's type
+    ts = [b for b in ts if any(k[0] == expr.id and k[1] == var[0] for k in field_reads(b))]
+    if len(ts) != 1 or len(wa) != 1:
+        res.cannot_decide(f'exactly one string predicate per back end (TypeScript: {len(ts)}, WebAssembly: {len(wa)})')
+        return [res]
+    tsb, wab = ts[0], wa[0]
+
+    def slots(b):
+        return {(k[1], k[2]) for k in field_reads(b) if k[0] == expr.id}
+    st, sw = slots(tsb), slots(wab)
+    for (vi, fi) in sorted(st | sw):
+        key = f'slot:{expr.variants[vi].name}.{fi}'
+        if (vi, fi) in st and (vi, fi) in sw:
+            res.ok(key, wab.loc(), f'both predicates inspect {expr.variants[vi].name}.{fi}')
+        else:
+            who = wab if (vi, fi) not in sw else tsb
+            res.violation(key, who.loc(), f'{who.name} does not look at `{expr.variants[vi].name}.{fi}` although its sibling '
+                          f'{(tsb if who is wab else wab).name} does: for such operands one back end compares strings by content '
+                          f'and the other by reference (or as numbers), so the two emitted programs print different results')
+    res.floor('expression slots inspected by the string predicates', len(st | sw), 1)
+    res.analysed['predicates'] = [tsb.name, wab.name]
+    return [res]
+
+
+# ---------------------------------------------------------------------------------------------------------------------
+# ENTRY-OUTPUT-FRESH (C04): the compiler emits one TypeScript file and one WebAssembly launcher per entry module, in a loop.
+# Each emitted text must be a function of that iteration's entry point only. A string buffer that lives across iterations,
+# is appended to inside the loop and is (cloned and) stored as an output accumulates the earlier entries' invocations:
+# `<Second>.ts` then also runs First's main, while `<Second>.wasm.js` runs only its own.
+
+def run_entry_output_fresh(prog, tier, repo):
+    from ..cfg import cfg_of, single_def, def_sites
+    res = RuleResult('ENTRY-OUTPUT-FRESH', 'C04: every per-entry-point output text is built afresh in its loop iteration - no buffer '
+                     'that is appended to in the loop and stored as an output is carried over from the previous iteration')
+    bodies = [b for b in prog.bodies.values() if b.crate == 'samlang_compiler' and b.kind != 'closure' and b.name.endswith('::compile_sources')]
+    if len(bodies) != 1:
+        res.cannot_decide('samlang_compiler::compile_sources')
+        return [res]
+    b = bodies[0]
+    cfg = cfg_of(b)
+    heads = {h for (_, h) in cfg.back_edges()}
+    n = 0
+    inserts = [(bi, bl.term) for bi, bl in enumerate(b.blocks) if not bl.cleanup and bl.term[0] == 'call'
+               and (callee(bl.term)[1] or '').endswith('::insert') and 'BTreeMap' in (callee(bl.term)[1] or '') and len(bl.term[3]) == 3]
+    for bi, t in inserts:
+        in_loop = [h for h in heads if cfg.can_reach(h, bi) and cfg.can_reach(bi, h)]
+        if not in_loop:
+            continue
+        n += 1
+        nb = sum(1 for i in res.instances if i.key.startswith('output#')) + 1
+        key = f'output#{nb}'
+        # the stored value: follow clone()/to_string()/moves back to a String local
+        op = t[3][2]
+        r, _ = operand_root(b, op)
+        hops = 0
+        while r is not None and hops < 6:
+            hops += 1
+            sd = single_def(b, r)
+            if sd and sd[1] == 'term' and (callee(sd[2])[1] or '').split('::')[-1] in ('clone', 'to_string', 'to_owned') and sd[2][3]:
+                r, _ = operand_root(b, sd[2][3][0])
+                continue
+            break
+        problem = None
+        if r is not None:
+            defs = [d for d in def_sites(b).get(r, []) if not b.blocks[d[0]].cleanup]
+            outside = [d for d in defs if not any(cfg.can_reach(h, d[0]) and cfg.can_reach(d[0], h) for h in in_loop)]
+            if outside and len(outside) == len(defs):
+                # defined only outside the loop: is it appended to inside the loop?
+                for bj, bl in enumerate(b.blocks):
+                    tt = bl.term
+                    if bl.cleanup or tt[0] != 'call' or not tt[3]:
+                        continue
+                    nm = (callee(tt)[1] or '')
+                    if nm.split('::')[-1] in ('push_str', 'push', 'extend', 'insert_str', 'write_str', 'write_fmt') and \
+                            operand_root(b, tt[3][0])[0] == r and any(cfg.can_reach(h, bj) and cfg.can_reach(bj, h) for h in in_loop):
+                        problem = tt[7]
+        if problem:
+            res.violation(key, b.loc(t[7]), f'{b.name}: the text stored for an entry point at line {t[7]} comes from a buffer that is '
+                          f'created before the loop over the entry points and appended to inside it (line {problem}): the output of '
+                          f'every later entry point also contains what was appended for the earlier ones')
+        else:
+            res.ok(key, b.loc(t[7]), 'stored text is built inside the iteration or not appended to in the loop')
+    res.floor('per-entry outputs stored in the loop', n, 2)
+    return [res]
